@@ -185,7 +185,7 @@ class Oracle:
             if le[1] == "ZeroDivisionError" and G.base_kind(self.spec) == "Avg":
                 self.err(SIG_F11, f"{name} after {G.short(op)}: loss(real=False) raised ZeroDivisionError "
                                   f"(npoints={G.short(snap['npoints'])}, {len(pend)} pending)")
-            elif le[1] == "ValueError" and G.base_kind(self.spec) == "L2D" and self._l2d_corners_lost(l):
+            elif G.base_kind(self.spec) == "L2D" and self._l2d_corners_lost(l):
                 self.err(SIG_F10, f"{name} after {G.short(op)}: loss(real=False) raised {G.short(le)}; a Learner2D has corner points that are "
                                   f"neither in data, nor pending, nor on its stack")
                 self.stop = True
